@@ -110,8 +110,9 @@ theorem targetConfig_formats :
     targetConfigFormats = ["route add %s %s %s", " weight %2.4f", " weight %.4f", " tags \"%s\"", " opts \"%s\""] ∧
     targetConfigSorts = ["sort.Strings(keys)"] := by pin
 
+/-- `Route.config` leaves out targets without traffic share only in the weighted display, never in `String()` -/
 theorem config_shape :
-    routeConfigSkips = ["t.Weight <= 0"] ∧
+    routeConfigSkips = ["addWeight && t.Weight <= 0"] ∧
     tableConfigSorts = ["sort.Sort(sort.Reverse(sort.StringSlice(hosts)))"] ∧
     tableStringJoins = ["strings.Join(t.config(false), \"\\n\")"] := by pin
 
